@@ -157,7 +157,15 @@ def run_case(case):
             z = zoh_j(alpha, seq, tsent, trecv, data, onp.float32(ts_start))
             zv = onp.asarray(z.data).reshape(W, -1).astype(float)
             counters["zoh_coincidences_checked"] += 1
-            if onp.max(onp.abs(zv[-1] - got[-1])) > tol + max_slope * 1e-5:
+            # exact coincidence is a float32 tie inside rex (ts_sent + d > ts_start may round either way): the zero-order-hold
+            # result may legitimately be the previous message; the interpolated value must equal the hit message either way
+            j_hit = hit[-1]
+            prev_val = data_all[j_hit - 1].reshape(-1).astype(float) if j_hit > 0 else None
+            zoh_is_prev = prev_val is not None and onp.max(onp.abs(zv[-1] - prev_val)) <= tol_v
+            if onp.max(onp.abs(got[-1] - data_all[j_hit].reshape(-1).astype(float))) > tol + max_slope * 1e-5:
+                V.append(dict(clause="interpolated_value_at_message_time_not_the_message", cfg=cfg, ts_start=ts_start, d=d_eff, linear=got[-1].tolist(),
+                              message=data_all[j_hit].reshape(-1).tolist()))
+            elif onp.max(onp.abs(zv[-1] - got[-1])) > tol + max_slope * 1e-5 and not zoh_is_prev:
                 V.append(dict(clause="differs_from_zoh_at_message_time", cfg=cfg, ts_start=ts_start, d=d_eff, linear=got[-1].tolist(), zoh=zv[-1].tolist()))
         # gradient wrt the delay parameter (scalar float payloads)
         if dtype == onp.float32 and shape == () and ci % 3 == 0 and len(arrived) >= 2:
